@@ -124,6 +124,43 @@ func replayBehMain(args []string) {
 			case "Exp", "Exp2", "Exp10", "Expm1", "Log", "Log2", "Log10", "Log1p", "Sqrt", "Cbrt":
 				e = Ev{"op": op}
 				e.setDec("x", reg("a", s))
+			case "SqrtSq", "CbrtCube", "F64", "FmtE":
+				if skip, _ := s["skip"].(bool); skip {
+					continue // the composite has no exactly specified result for this operand
+				}
+				x := reg("a", s)
+				sub := func(e1 Ev) Ev {
+					e1["beh"] = nb
+					e1["step"] = si + 1
+					exec(e1)
+					w.put(e1)
+					return e1
+				}
+				switch op {
+				case "SqrtSq", "CbrtCube":
+					e1 := Ev{"op": "Mul", "wm": true, "m": 0}
+					e1.setDec("x", x)
+					e1.setDec("y", x)
+					p := sub(e1).dec("r")
+					if op == "CbrtCube" {
+						e2 := Ev{"op": "Mul", "wm": true, "m": 0}
+						e2.setDec("x", p)
+						e2.setDec("y", x)
+						p = sub(e2).dec("r")
+						e = Ev{"op": "Cbrt"}
+					} else {
+						e = Ev{"op": "Sqrt"}
+					}
+					e.setDec("x", p)
+				case "F64":
+					e1 := Ev{"op": "Float64"}
+					e1.setDec("x", x)
+					e = Ev{"op": "FromFloat64", "f": sub(e1)["f"]}
+				case "FmtE":
+					e1 := Ev{"op": "Format", "verb": int('e'), "prec": int(s["prec"].(float64))}
+					e1.setDec("x", x)
+					e = Ev{"op": "Parse", "via": "Parse", "s": sub(e1)["s"]}
+				}
 			case "Binary", "Json", "Sql", "Int":
 				// two calls: the encoding / conversion, then the way back
 				var e1 Ev
@@ -177,7 +214,7 @@ func replayBehMain(args []string) {
 				r := e.dec("back")
 				regs[int(s["d"].(float64))] = r
 				e["bok"] = matchesExpected(r, s["exp"].(map[string]any))
-			case "Pow":
+			case "Pow", "Exp10", "Exp2", "Log10", "Log2":
 				if skip, _ := s["skip"].(bool); skip {
 					break // no exactly specified result: the call is validated as a trace event, the register stays
 				}
